@@ -52,15 +52,17 @@ theorem failed_tx_changes_nothing (d : D) (o : Op) (hf : (runTx d o).2 ≠ "=> o
   · subst hp; intro _; rfl
   · subst hp; intro _; rfl
   · split at hp
+    · subst hp; intro _; rfl
     · split at hp
-      · subst hp; intro h; exact absurd rfl h
-      · subst hp; intro _; rfl
-      · subst hp; intro _; rfl
-    · split at hp
-      · subst hp; intro _; rfl
-      · subst hp; intro h
-        have := failed_msg_changes_nothing d.w o h
-        simp only [this]
+      · split at hp
+        · subst hp; intro h; exact absurd rfl h
+        · subst hp; intro _; rfl
+        · subst hp; intro _; rfl
+      · split at hp
+        · subst hp; intro _; rfl
+        · subst hp; intro h
+          have := failed_msg_changes_nothing d.w o h
+          simp only [this]
 
 /-- a transaction rejected by the ante chain never reaches its handler -/
 theorem ante_rejects_before_handler (d : D) (o : Op) (h : ante d o ≠ .ok ()) : (runTx d o).1 = d := by
